@@ -94,7 +94,10 @@ type c20In struct {
 	Head   bool     `json:"head,omitempty"`
 	Dirs   []c20Dir `json:"dirs,omitempty"`
 	Tail   string   `json:"tail,omitempty"`
-	Wrap   string   `json:"wrap,omitempty"` // "", "gzip", "header": another directive between log and the handler
+	Wrap   string   `json:"wrap,omitempty"` // "", "gzip", "header", "rewrite", "ext": another directive between log and the handler
+	// the scripted handler sets r.URL.Path to this value before it answers, as inner middleware
+	// (rewrite, ext, ...) does in place; scope and exceptions are owed on the REQUESTED path
+	Rewrite string `json:"rewrite,omitempty"`
 
 	Burst []*c20In `json:"burst,omitempty"`
 }
@@ -238,7 +241,11 @@ func c20Defaults(q *c20Req, remote, remotePort string) [][2]string {
 		d = append(d, [2]string{k, q.Empty})
 	}
 	if q.HasRec {
-		d = append(d, [2]string{"{status}", strconv.Itoa(q.RecStatus)}, [2]string{"{size}", strconv.Itoa(q.RecSize)})
+		size := q.RecSize
+		if q.Method == "HEAD" {
+			size = 0 // the body of a response to HEAD is never sent
+		}
+		d = append(d, [2]string{"{status}", strconv.Itoa(q.RecStatus)}, [2]string{"{size}", strconv.Itoa(size)})
 	} else {
 		d = append(d, [2]string{"{status}", q.Empty}, [2]string{"{size}", q.Empty})
 	}
@@ -492,6 +499,9 @@ func c20RunLog(in *c20In) Result {
 	}
 	cw := &c20W{hdr: http.Header{}, nextFail: -1}
 	inner := handlerFunc(func(w http.ResponseWriter, r *http.Request) (int, error) {
+		if in.Rewrite != "" {
+			r.URL.Path = in.Rewrite
+		}
 		for _, o := range in.Ops {
 			switch o.K {
 			case "wh":
@@ -557,14 +567,16 @@ func c20RunLog(in *c20In) Result {
 	}
 	sig := "log:clean"
 	switch {
-	case !c20WellBehaved(in.Ops, in.Ret):
-		sig = "handler-writes-after-commit"
+	case c20Panics(in.Ops) && inScope > 0:
+		sig = "panic-without-errors-directive"
 	case len(scopes) > 1:
 		sig = "overlapping-scopes"
+	case !c20WellBehaved(in.Ops, in.Ret):
+		sig = "handler-writes-after-commit"
 	}
 	res := Result{Term: term, Obs: map[string]interface{}{"lines": lines, "writer_status": cw.status, "delivered": cw.delivered,
 		"ret": ret, "panic": msg}, Sig: sig, Nontrivial: inScope > 0,
-		Class: fmt.Sprintf("%s:inscope=%v:panic=%v", sig, inScope > 0, p)}
+		Class: fmt.Sprintf("%s:inscope=%v:panic=%v:rewritten=%v", sig, inScope > 0, p, in.Rewrite != "")}
 	if bad != "" {
 		res.Direct = "unparsable log line: " + bad
 	}
@@ -575,8 +587,9 @@ func c20RunLog(in *c20In) Result {
 // site kind: a running instance
 
 type c20Script struct {
-	ops []c20Op
-	ret int
+	ops     []c20Op
+	ret     int
+	rewrite string
 }
 
 var c20Scripts sync.Map // id -> c20Script
@@ -589,6 +602,9 @@ func (p c20Probe) ServeHTTP(w http.ResponseWriter, r *http.Request) (int, error)
 		return p.next.ServeHTTP(w, r)
 	}
 	sc := v.(c20Script)
+	if sc.rewrite != "" {
+		r.URL.Path = sc.rewrite
+	}
 	for _, o := range sc.ops {
 		switch o.K {
 		case "wh":
@@ -675,6 +691,17 @@ func c20Site(in *c20In) (*c20LiveSite, error) {
 		sb.WriteString("gzip\n")
 	case "header":
 		sb.WriteString("header / X-C20-Added yes\n")
+	case "rewrite":
+		// anchored literal rules: at most one matches a request
+		for _, k := range c20RewriteFrom {
+			fmt.Fprintf(&sb, "rewrite ^%s$ %s\n", k, c20RewriteTable[k])
+		}
+	case "ext":
+		// /x and /a/b exist only with the extension
+		os.MkdirAll(filepath.Join(dir, "a"), 0o755)
+		os.WriteFile(filepath.Join(dir, "x.html"), []byte("x"), 0o644)
+		os.WriteFile(filepath.Join(dir, "a", "b.html"), []byte("b"), 0o644)
+		sb.WriteString("ext .html\n")
 	}
 	sb.WriteString("c20probe\n")
 	casket.Quiet = true
@@ -738,6 +765,30 @@ func c20SiteHeaders(in *c20In, id string) map[string]string {
 		h["Cookie"] = strings.Join(cs, "; ")
 	}
 	return h
+}
+
+// the rewrite rules of the "rewrite" sites: they move requests into and out of scopes and exceptions
+var c20RewriteTable = map[string]string{"/x": "/a/b", "/a/b": "/x", "/c": "/x/y", "/a/b/c": "/b/a", "/ab": "/a", "/b/a": "/a/b/c"}
+var c20RewriteFrom = []string{"/x", "/a/b", "/c", "/a/b/c", "/ab", "/b/a"}
+
+// c20Cur is r.URL.Path as the inner directives and the scripted handler leave it (what
+// {rewrite_path}, {file} ... show); log scopes and exceptions must not depend on it.
+func c20Cur(in *c20In) string {
+	p := in.Path
+	switch in.Wrap {
+	case "rewrite":
+		if t, ok := c20RewriteTable[p]; ok {
+			p = t
+		}
+	case "ext":
+		if c := path.Clean("/" + p); !strings.HasSuffix(p, "/") && (c == "/x" || c == "/a/b") {
+			p += ".html"
+		}
+	}
+	if in.Rewrite != "" {
+		p = in.Rewrite
+	}
+	return p
 }
 
 func c20Target(in *c20In) string {
@@ -805,12 +856,12 @@ func c20SiteSig(in *c20In) string {
 	switch {
 	case c20Panics(in.Ops) && !in.HasErr && inScope:
 		return "panic-without-errors-directive"
-	case !c20WellBehaved(in.Ops, in.Ret):
-		return "handler-writes-after-commit"
 	case in.Head:
 		return "head-request"
 	case len(scopes) > 1:
 		return "overlapping-scopes"
+	case !c20WellBehaved(in.Ops, in.Ret):
+		return "handler-writes-after-commit"
 	case leak:
 		return "except-of-earlier-directive"
 	}
@@ -819,7 +870,7 @@ func c20SiteSig(in *c20In) string {
 
 func c20SiteTerm(in *c20In, addr string, o c20SiteObs) string {
 	q := *in.Req
-	q.Method, q.Host, q.Path, q.OrigPath, q.Empty = c20Method(in), addr, in.Path, in.Path, "-"
+	q.Method, q.Host, q.Path, q.OrigPath, q.Empty = c20Method(in), addr, c20Cur(in), in.Path, "-"
 	id := ""
 	hs := []c20Hdr{{"Connection", []string{"close"}}}
 	for k, v := range c20SiteHeaders(in, id) {
@@ -846,7 +897,7 @@ func c20RunSite(in *c20In) Result {
 	}
 	c20ReqNo++
 	id := fmt.Sprintf("r%d", c20ReqNo)
-	c20Scripts.Store(id, c20Script{in.Ops, in.Ret})
+	c20Scripts.Store(id, c20Script{in.Ops, in.Ret, in.Rewrite})
 	defer c20Scripts.Delete(id)
 	rr := doRaw(s.addr, c20Method(in), c20Target(in), c20SiteHeaders(in, id), nil)
 	by, bad := c20Collect(s, len(in.Dirs))
@@ -862,7 +913,7 @@ func c20RunSite(in *c20In) Result {
 		inScope = inScope || c20Matches(in.Path, d.Scope)
 	}
 	res := Result{Term: c20SiteTerm(in, s.addr, o), Obs: o, Sig: sig, Nontrivial: inScope,
-		Class: fmt.Sprintf("%s:errors=%v:wrap=%s", sig, in.HasErr, in.Wrap)}
+		Class: fmt.Sprintf("%s:errors=%v:wrap=%s:rewritten=%v", sig, in.HasErr, in.Wrap, c20Cur(in) != in.Path)}
 	if rr.Err != "" {
 		res.Direct = "no response: " + rr.Err
 	} else if o.Bad != "" {
@@ -886,7 +937,7 @@ func c20RunBurst(in *c20In) Result {
 	for i, b := range in.Burst {
 		c20ReqNo++
 		ids[i] = fmt.Sprintf("b%d", c20ReqNo)
-		c20Scripts.Store(ids[i], c20Script{b.Ops, b.Ret})
+		c20Scripts.Store(ids[i], c20Script{b.Ops, b.Ret, b.Rewrite})
 	}
 	var wg sync.WaitGroup
 	start := make(chan struct{})
@@ -1394,6 +1445,25 @@ func c20GenSite(r *Rand) *c20In {
 	if r.Chance(20) {
 		in.Wrap = r.Pick([]string{"gzip", "header"})
 	}
+	// inner directives / the handler rewrite r.URL.Path in place
+	switch x := r.Intn(100); {
+	case x < 10:
+		in.Wrap = "rewrite"
+		if r.Chance(70) {
+			in.Path = r.Pick(c20RewriteFrom)
+		}
+	case x < 16:
+		in.Wrap = "ext"
+		if r.Chance(70) {
+			in.Path = r.Pick([]string{"/x", "/a/b"})
+		}
+		if r.Chance(70) {
+			k := r.Intn(len(in.Dirs))
+			in.Dirs[k].Except = append(in.Dirs[k].Except, r.Pick([]string{"/x.html", "/a/b.html", "/x.h"}))
+		}
+	case x < 28:
+		in.Rewrite = r.Pick(c20Paths)
+	}
 	return in
 }
 
@@ -1453,6 +1523,10 @@ func c20Gen(r *Rand, tier string) []interface{} {
 			in.Rules = append(in.Rules, ru)
 		}
 		in.Ops, in.Ret = c20GenOps(r, "log")
+		if r.Chance(30) {
+			// the handler rewrites r.URL.Path: into / out of the scopes and the exceptions
+			in.Rewrite = r.Pick(c20Paths)
+		}
 		out = append(out, in)
 	}
 	// running sites
